@@ -56,6 +56,12 @@ func init() {
 	// the output is not length-prefixed: OutputLength carries its length
 	RegisterPost(tExecResp, func(c *Ctx, v reflect.Value) {
 		r := v.Addr().Interface().(*rhp3.RPCExecuteProgramResponse)
+		// program outputs are read in chunks: cover lengths around and beyond the chunk size
+		if c.Intn(6) == 0 {
+			sizes := []int{65535, 65536, 65537, 65600, 131072, 131073, 200704, 262145}
+			r.Output = make([]byte, sizes[c.Intn(len(sizes))])
+			FillSeed(r.Output, c.Seed())
+		}
 		r.OutputLength = uint64(len(r.Output))
 	})
 
